@@ -29,16 +29,17 @@ def universe(tier):
     if tier == "quick":
         return dict(
             lang_regs=[(n, p, k) for n in ("a", "A") for p in ("*.x", "f.*") for k in ("inst", "fact")]
-            + [("b", "*.x", "fact"), ("TEXTX", "*.x", "inst")],  # the last one collides with an entry-point language
-            files=["f.x", "g.y"],
-            mm_names=["a", "A", "b", "textx"],
+            + [("b", "*.x", "fact"), ("TEXTX", "*.x", "inst"),  # the last one collides with an entry-point language
+               ("n", None, "inst"), ("z", "*.x", "none")],  # a language without a pattern (the default) / without a meta-model (the default)
+            files=["f.x", "g.y", "m.tx"],
+            mm_names=["a", "A", "b", "textx", "z"],
             gen_regs=[("a", "t"), ("A", "T"), ("any", "t"), ("TextX", "DOT")],  # the last one collides with an entry-point generator
         )
     return dict(
         lang_regs=[(n, p, k) for n in ("a", "A") for p in ("*.x", "*.y", "f.*") for k in ("inst", "fact")]
-        + [("b", p, k) for p in ("*.x", "f.*") for k in ("inst", "fact")] + [("TEXTX", "*.x", "inst")],
-        files=["f.x", "g.y", "h.z"],
-        mm_names=["a", "A", "b", "textx"],
+        + [("b", p, k) for p in ("*.x", "f.*") for k in ("inst", "fact")] + [("TEXTX", "*.x", "inst"), ("n", None, "inst"), ("z", "*.x", "none")],
+        files=["f.x", "g.y", "h.z", "m.tx"],
+        mm_names=["a", "A", "b", "textx", "z", "n"],
         gen_regs=[("a", "t"), ("A", "T"), ("a", "T"), ("any", "t"), ("ANY", "T"), ("TextX", "DOT"), ("ANY", "dot")],
     )
 
@@ -50,8 +51,7 @@ def ops_of(u):
     ops.append(("cl",))
     for n in u["mm_names"]:
         ops.append(("ml", n, None))
-        if n != "textx":
-            ops.append(("ml", n, "x"))
+        ops.append(("ml", n, "x"))
     for f in u["files"]:
         ops.append(("mf", f, None))
         ops.append(("mf", f, "x"))
@@ -98,7 +98,7 @@ class Ref:
         return r
 
     def langs_for_file(self, f):
-        return [d for d in self.L.values() if f == d[1] or fnmatch.fnmatch(f, d[1])]
+        return [d for d in self.L.values() if d[1] is not None and (f == d[1] or fnmatch.fnmatch(f, d[1]))]
 
     def lang_for_file(self, f):
         ls = self.langs_for_file(f)
@@ -112,6 +112,8 @@ class Ref:
             if key not in self.L:
                 return ("ERR",)
             tok = self.L[key][2]
+            if tok[0] == "none":
+                return ("ERR",)  # registered without a meta-model: a registration error, whatever the arguments
             if tok[0] == "inst":
                 self.cache[key] = ("mm",) + tok
             elif tok[0] == "fact":
@@ -141,7 +143,12 @@ class Ref:
                 return d
             return self.mm_for_lang(d[0], op[2])
         if k == "msf":
-            return ("list",) + tuple(self.mm_for_lang(d[0], None) for d in self.langs_for_file(op[1]))
+            out = []
+            for d in self.langs_for_file(op[1]):
+                out.append(self.mm_for_lang(d[0], None))
+                if out[-1] == ("ERR",):
+                    return ("ERR",)  # a matching language without a meta-model: the request fails (meta-models found before it stay cached)
+            return ("list",) + tuple(out)
         if k == "rg":
             _, l, t, form = op
             g = self.G.get(l.lower(), {})
@@ -265,7 +272,9 @@ class Real:
             if k == "rl":
                 _, n, p, kind, form = op
                 label = "%s|%s|%s" % (n, p, kind)
-                if kind == "inst":
+                if kind == "none":
+                    mm = None
+                elif kind == "inst":
                     if label not in self.insts:
                         m = self.MM()
                         m._tok = ("mm", "inst", label)
@@ -286,7 +295,7 @@ class Real:
                 else:
                     R.register_language(n, pattern=p, metamodel=mm)
                     for dd in R.languages.values():
-                        if dd.metamodel is mm and not hasattr(dd, "_tok"):
+                        if dd.metamodel is mm and dd.name == n and not hasattr(dd, "_tok"):
                             dd._tok = (kind, label)
                 return ("ok",)
             if k == "cl":
@@ -323,6 +332,8 @@ class Real:
                 return ("ok",)
         except E:
             return ("ERR",)
+        except Exception as e:
+            return ("EXCEPTION", type(e).__name__, str(e)[:100])
         raise HarnessError(op)
 
     def query(self, q):
@@ -352,6 +363,8 @@ class Real:
                 return d._tok
         except E:
             return ("ERR",)
+        except Exception as e:
+            return ("EXCEPTION", type(e).__name__, str(e)[:100])
         raise HarnessError(q)
 
     def observe(self):
